@@ -135,6 +135,24 @@ def key_pairs(rng, tier):
     for a in SPECIAL_FLOATS + STRINGISH + OTHERS:
         for b in atoms:
             pairs.append((a, b)); pairs.append((b, a))
+    # 2b. complex numbers with a non-zero imaginary part: +-0 / integral / fractional / huge / inf / nan
+    #     parts in both precisions, every ordered pair (equal ones differ at most in the sign of a zero
+    #     or in precision), also wrapped in a Tuple
+    cparts = [0.0, -0.0, 1.0, -1.0, 0.5, 2.0**53, 2.0**60, float("inf"), float("nan")]
+    cplx = []
+    for re_ in cparts:
+        for im_ in cparts:
+            if im_ == 0:
+                continue
+            cplx.append("x:%s,%s" % (fbits(re_), fbits(im_)))
+            if all(x != x or abs(x) in (float("inf"),) or struct.unpack(">f", struct.pack(">f", x))[0] == x for x in (re_, im_)):
+                cplx.append("x32:%s,%s" % (f32bits(re_), f32bits(im_)))
+    for a in cplx:
+        for b in (cplx if not q else [c for c in cplx if c.split(",")[1] == a.split(",")[1] or r.below(6) == 0]):
+            pairs.append((a, b))
+        pairs.append(("t( %s i:1 )" % a, "t( %s f:3ff0000000000000 )" % a.replace("x:0000000000000000,", "x:8000000000000000,")))
+        for b in ("f:" + fbits(1.0), "i:1", "x:%s,%s" % (fbits(1.0), fbits(0.0)), "N"):
+            pairs.append((a, b)); pairs.append((b, a))
     # 3. tuples
     tatoms = [t for z in (0, 1, 2) for t in groups[Fraction(z)]][:30] + STRINGISH[:9] + ["N", "T", "f:7ff8000000000000"]
     ts = tuples_of(r, tatoms, 150 if q else 1500)
@@ -233,7 +251,7 @@ def c07(res, rng, tier):
                       found_input=False)
     res.coverage.update({
         "evaluations": len(pairs) + len(llines), "distinct_nontrivial": neq_true,
-        "rule": "ordered key pairs: equal-valued cross-type pairs of a boundary lattice (+-2^k+d in every Go numeric type holding it, big ints to 2^1100, floats to 2^1023, fractions, subnormals) and numeric neighbours, NaN/Inf/-0/complex specials, string/Bytes/ByteString, Tuples (incl. type-substituted copies), None/Class/Call/Ref, random pairs, unhashable keys; non-trivial = pairs that equal() accepts",
+        "rule": "ordered key pairs: equal-valued cross-type pairs of a boundary lattice (+-2^k+d in every Go numeric type holding it, big ints to 2^1100, floats to 2^1023, fractions, subnormals) and numeric neighbours, NaN/Inf/-0/complex specials, complex numbers with non-zero imaginary part over {+-0, +-1, 0.5, 2^53, 2^60, inf, nan}^2 in both precisions, string/Bytes/ByteString, Tuples (incl. type-substituted copies), None/Class/Call/Ref, random pairs, unhashable keys; non-trivial = pairs that equal() accepts",
         "programs": len(pairs), "disagreements_checked": len(pairs),
         "lattice_values": nvals, "black_box_lookups": len(llines), "cpython_eq_evaluated": sum(1 for x in cpy if x is not None)})
     res.samples = [{"a": pairs[i][0], "b": pairs[i][1], "impl": impl[i], "model": model[i], "cpython_eq": cpy[i]}
@@ -341,7 +359,10 @@ def c08(res, rng, tier):
     # keys that are equal to it ("Set and Del first remove EVERY entry whose key equals their argument")
     import itertools
     K = ALPHA10 + ["t( z:61 z:62 )", "t( s:61 s:62 )", "t( b:61 b:62 )", "t( s:61 b:62 )", "t( b:61 s:62 )",
-                   "t( z:61 s:62 )", "t( i:1 z:61 z:62 )", "t( T s:61 b:62 )", "t( f:3ff0000000000000 b:61 s:62 )"]
+                   "t( z:61 s:62 )", "t( i:1 z:61 z:62 )", "t( T s:61 b:62 )", "t( f:3ff0000000000000 b:61 s:62 )",
+                   # the non-transitive string kinds inside the struct-like key types
+                   "R( z:61 )", "R( s:61 )", "R( b:61 )", "C( g:6d:43 t( z:61 ) )", "C( g:6d:43 t( s:61 ) )", "C( g:6d:43 t( b:61 ) )",
+                   "t( R( z:61 ) i:1 )", "t( R( s:61 ) T )", "t( R( b:61 ) f:3ff0000000000000 )", "R( t( z:61 i:1 ) )", "R( t( s:61 L:1 ) )", "R( t( b:61 T ) )"]
     pk = {k: PV.parse(k) for k in K}
     for qk in K:
         M = [k for k in K if k != qk and PV.py_eq(pk[qk], pk[k])]
